@@ -450,7 +450,7 @@ const FF: u8 = b'f'; // \x0C
 const RR: u8 = b'r'; // \x0D
 const QU: u8 = b'"'; // \x22
 const BS: u8 = b'\\'; // \x5C
-const UU: u8 = b'u'; // \x00...\x1F except the ones above
+const UU: u8 = b'u'; // \x00...\x1F except the ones above, and \x7F
 const __: u8 = 0;
 
 // Lookup table of escape sequences. A value of b'x' at index i means that byte
@@ -464,7 +464,7 @@ static ESCAPE: [u8; 256] = [
 	__, __, __, __, __, __, __, __, __, __, __, __, __, __, __, __, // 4
 	__, __, __, __, __, __, __, __, __, __, __, __, BS, __, __, __, // 5
 	__, __, __, __, __, __, __, __, __, __, __, __, __, __, __, __, // 6
-	__, __, __, __, __, __, __, __, __, __, __, __, __, __, __, __, // 7
+	__, __, __, __, __, __, __, __, __, __, __, __, __, __, __, UU, // 7
 	__, __, __, __, __, __, __, __, __, __, __, __, __, __, __, __, // 8
 	__, __, __, __, __, __, __, __, __, __, __, __, __, __, __, __, // 9
 	__, __, __, __, __, __, __, __, __, __, __, __, __, __, __, __, // A
